@@ -192,6 +192,20 @@ pub fn drive(
             es.retain(|e| !matches!(e, Ev::WriteErr));
             es.push(Ev::WriteUnblock);
         }
+        // With the write half broken, WHEN run() fails relative to the other packets of a batch is the
+        // implementation's business (at the first acknowledgement it cannot write, or after it has
+        // looked at everything that had arrived): inbound packets then come one at a time, to a
+        // context task that is not held back; and the fault is not injected into such a pile-up.
+        if sys.m.write_err {
+            let piled = sys.m.ctx_held || !sys.m.inbox.is_empty();
+            es.retain(|e| match e {
+                Ev::DeliverBatch(_) => false,
+                Ev::Deliver(_) | Ev::DeliverBytewise(_) | Ev::DeliverSplit(..) | Ev::PartialThenEof(..) => !piled,
+                _ => true,
+            });
+        } else if sys.m.ctx_held || !sys.m.inbox.is_empty() {
+            es.retain(|e| !matches!(e, Ev::WriteErr));
+        }
         if es.is_empty() {
             break;
         }
